@@ -201,6 +201,13 @@ func runC18(env *Env) {
 		{"two throws at one catch event", []c18Proc{{executable: true, task: true, throws: true}, {executable: true, task: true, throws: true}, {executable: true, catches: true}},
 			[][2]string{{"H0", "C2"}, {"H1", "C2"}}, []string{"w", "t:T0", "w", "t:T1", "w", "t:B2", "W", "W"}, []string{"T0", "T1", "B2"},
 			func(d map[string]bool) bool { return !d["T0"] || !d["T1"] || !d["B2"] }, 3},
+		// a throw event that no message flow leaves from: forwarded to the run loop all the same, acted on by nobody
+		{"throw linked to nothing", []c18Proc{{executable: true, task: true, throws: true}}, nil,
+			[]string{"w", "t:T0", "W", "W", "c"}, []string{"T0"},
+			func(d map[string]bool) bool { return !d["T0"] }, 1},
+		{"one throw linked to nothing, one instantiating a waiting process", []c18Proc{{executable: true, task: true, throws: true}, {executable: true, throws: true}, {msgStart: true, task: true}},
+			[][2]string{{"H1", "s2"}}, []string{"w", "t:T2", "w", "t:T0", "W", "W"}, []string{"T2", "T0"},
+			func(d map[string]bool) bool { return !d["T0"] || !d["T2"] }, 3},
 	}
 	for _, sc := range scens {
 		xmlText := c18Build(sc.procs, sc.flows)
